@@ -139,10 +139,12 @@ Definition h_set (kd : kind) (st : hstate) (name : bytes) (v : val) : outcome :=
 Definition h_add (kd : kind) (st : hstate) (name : bytes) (v : val) : outcome :=
   if protected name then Refused else Done (header_add st name (val_string v)).
 
+(* http.HasPrefixFold: prefix test, ASCII letters compared without case (header names are
+   case-insensitive) *)
 Fixpoint is_prefix (p s : bytes) : bool :=
   match p, s with
   | [], _ => true
-  | x :: p', y :: s' => byte_eqb x y && is_prefix p' s'
+  | x :: p', y :: s' => byte_eqb (lower x) (lower y) && is_prefix p' s'
   | _, [] => false
   end.
 
@@ -179,9 +181,10 @@ Definition h_unset (kd : kind) (st : hstate) (name : bytes) : outcome :=
   if protected name then Refused else
   match cut_star name with
   | Some p =>
-    (* wildcard: deletes the map entries whose (canonical) key starts with the prefix AS WRITTEN;
-       the assigned-key set is not touched *)
-    Done {| hmap := filter (fun kv => negb (is_prefix p (fst kv))) (hmap st); akeys := akeys st |}
+    (* wildcard (repaired): deletes the map entries whose key starts with the prefix, letters compared
+       without case, and forgets that those headers were assigned *)
+    Done {| hmap := filter (fun kv => negb (is_prefix p (fst kv))) (hmap st);
+            akeys := filter (fun k => negb (is_prefix p k)) (akeys st) |}
   | None =>
     let '(n, key, found) := cut_colon name in
     if negb found then Done (unassign (header_del st n) n)
